@@ -8,7 +8,7 @@ use crate::wl::{self as gen_, asm};
 use crate::rng::{mix, tag, Rng};
 
 /// (family, weight, sections it uses with the main one first)
-pub const FAMILIES: &[(&str, u64)] = &[("aranges", 10), ("addr", 6), ("str", 4), ("pub", 6), ("line", 24), ("macros", 6), ("lists", 20), ("info", 40)];
+pub const FAMILIES: &[(&str, u64)] = &[("aranges", 10), ("addr", 6), ("str", 4), ("pub", 6), ("line", 24), ("macros", 6), ("lists", 20), ("info", 40), ("cfi", 40)];
 
 pub fn families_for(prop: &str) -> Vec<(&'static str, u64)> {
     match prop {
@@ -26,6 +26,7 @@ pub fn main_section(family: &str) -> &'static str {
         "macros" => "debug_macinfo",
         "lists" => "debug_rnglists",
         "info" => "debug_info",
+        "cfi" => "eh_frame",
         _ => "",
     }
 }
@@ -330,6 +331,64 @@ fn gen_family(rng: &mut Rng, c: &mut Case, fam: &str, be: bool) {
             for (k, v) in secs {
                 c.put(&k, v);
             }
+        }
+        "cfi" => {
+            let asz = c.knob("addr_size", 8) as u8;
+            c.set("vendor", rng.chance(1, 4) as i64);
+            c.set("bases", if rng.chance(1, 6) { rng.below(16) as i64 } else { 0xf });
+            c.set("storage", *rng.pick(&[0i64, 0, 0, 1, 2]));
+            c.set("cie_provider", rng.below(2) as i64);
+            c.set("cie_fail_at", if rng.chance(1, 10) { rng.below(6) as i64 } else { -1 });
+            let mode = rng.below(10);
+            let (mut eh, mut df, mut hdr);
+            if mode < 2 {
+                match crate::wl::writer::frame_sections(rng, be, asz) {
+                    Some((d, e)) => {
+                        note.push_str("writer");
+                        df = d;
+                        eh = e;
+                        hdr = asm::cfi(rng, be, asz).eh_frame_hdr;
+                    }
+                    None => {
+                        note.push_str("asm");
+                        let o = asm::cfi(rng, be, asz);
+                        eh = o.eh_frame;
+                        df = o.debug_frame;
+                        hdr = o.eh_frame_hdr;
+                    }
+                }
+            } else if mode == 2 && !be {
+                note.push_str("fixture");
+                eh = gen_::fixture_slice(rng, "eh_frame", 6, 2048);
+                // the fixture's first CIEs so that FDE cie pointers of early entries resolve
+                let fx = gen_::fixture("eh_frame");
+                if rng.bool() {
+                    eh = fx[..1024].to_vec();
+                }
+                df = Vec::new();
+                let h = gen_::fixture("eh_frame_hdr");
+                hdr = h[..(12 + 8 * rng.usize(64)).min(h.len())].to_vec();
+            } else if mode == 3 {
+                note.push_str("noise");
+                eh = gen_::noise(rng, 128);
+                df = gen_::noise(rng, 128);
+                hdr = gen_::noise(rng, 64);
+            } else {
+                note.push_str("asm");
+                let o = asm::cfi(rng, be, asz);
+                eh = o.eh_frame;
+                df = o.debug_frame;
+                hdr = o.eh_frame_hdr;
+            }
+            match rng.below(4) {
+                0 => gen_::corrupt_some(rng, &mut eh, gen_::fixture("eh_frame"), &mut note),
+                1 => gen_::corrupt_some(rng, &mut df, gen_::fixture("eh_frame"), &mut note),
+                2 => gen_::corrupt_some(rng, &mut hdr, gen_::fixture("eh_frame_hdr"), &mut note),
+                _ => {}
+            }
+            c.put("eh_frame", eh);
+            c.put("debug_frame", df);
+            c.put("eh_frame_hdr", hdr);
         }
         _ => panic!("gen_family: {}", fam),
     }
